@@ -218,10 +218,25 @@ class Tensor(Funsor, metaclass=TensorMeta):
         if not subs:
             return self
 
-        # Handle diagonal variable substitution
-        var_counts = Counter(v for v in subs.values() if isinstance(v, Variable))
+        # Handle diagonal variable substitution, including renaming onto a
+        # name that remains occupied by an input that is not itself renamed.
+        name_counts = Counter(
+            v.name for v in subs.values() if isinstance(v, (Variable, Slice))
+        )
+        name_counts.update(
+            k
+            for k in self.inputs
+            if not isinstance(subs.get(k), (Variable, Slice))
+        )
         subs = OrderedDict(
-            (k, self.materialize(v) if var_counts[v] > 1 else v)
+            (
+                k,
+                (
+                    self.materialize(v)
+                    if isinstance(v, (Variable, Slice)) and name_counts[v.name] > 1
+                    else v
+                ),
+            )
             for k, v in subs.items()
         )
 
